@@ -8,7 +8,6 @@ import (
 	"path/filepath"
 	"regexp"
 	"runtime/debug"
-	"sort"
 	"strings"
 	"sync"
 	"time"
@@ -162,89 +161,8 @@ func trimStack(b []byte) string {
 
 // frame: every pre-existing location outside the modifies set keeps its value
 func (x *Exec) frameObligations(fr *Frame, ct *FnContract, fin *State) {
-	c := x.c
 	entry := fr.entry
-	sc := fr.scope(entry, entry)
-	type excl struct {
-		locs []string // excluded exact locations
-		refs []string // excluded whole objects (by ref)
-	}
-	ex := map[string]*excl{}
-	get := func(s string) *excl {
-		if ex[s] == nil {
-			ex[s] = &excl{}
-		}
-		return ex[s]
-	}
-	mapsMod := map[string][]string{}
-	for _, m := range ct.Modifies {
-		if sl, ok := m.E.(ESlice); ok {
-			v := sc.eval(sl.X)
-			for s := range x.leafSorts(v.Ty.Underlying().(*types.Slice).Elem(), nil) {
-				get(s).refs = append(get(s).refs, sx("ref", sx("sl_arr", v.T)))
-			}
-			continue
-		}
-		if v, ok := sc.tryEval(m.E); ok && v.Ty != nil {
-			if mt, isMap := v.Ty.Underlying().(*types.Map); isMap {
-				_, _, md, mv := x.mapKeys(mt)
-				mapsMod[md] = append(mapsMod[md], v.T)
-				mapsMod[mv] = append(mapsMod[mv], v.T)
-				mapsMod["ML"] = append(mapsMod["ML"], v.T)
-				continue
-			}
-		}
-		loc, ty := sc.lvalue(m.E)
-		if x.leafCount(ty) > 4*maxArrayExpand {
-			for s := range x.leafSorts(ty, nil) {
-				get(s).refs = append(get(s).refs, sx("ref", loc))
-			}
-			continue
-		}
-		var ls []leaf
-		x.leaves(ty, loc, &ls)
-		for _, l := range ls {
-			get(l.sort).locs = append(get(l.sort).locs, l.loc)
-		}
-	}
-	var keys []string
-	for k := range fin.Comp {
-		kind, _ := compSortKey(k)
-		if kind == "H" || kind == "MD" || kind == "MV" || kind == "ML" {
-			keys = append(keys, k)
-		}
-	}
-	sort.Strings(keys)
-	if fin.Gen != entry.Gen {
-		c.oblige(x.target+"#frame:all", "frame", x.target, "modifies: unbounded havoc inside the body", fr.pos(fr.fn.Pos()), fin.Reach, "false", nil)
-		return
-	}
-	for _, k := range keys {
-		h1, h0 := x.get(fin, k), x.get(entry, k)
-		if h1 == h0 {
-			continue
-		}
-		kind, rest := compSortKey(k)
-		l := c.freshConst("frame_l", "Loc")
-		conds := []string{sx("<", sx("ref", l), "alloc_0"), not(eq(l, "nil"))}
-		if kind == "H" {
-			if e := ex[rest]; e != nil {
-				for _, loc := range e.locs {
-					conds = append(conds, not(eq(l, loc)))
-				}
-				for _, r := range e.refs {
-					conds = append(conds, not(eq(sx("ref", l), r)))
-				}
-			}
-		} else {
-			for _, m := range mapsMod[k] {
-				conds = append(conds, not(eq(l, m)))
-			}
-		}
-		g := implies(and(conds...), eq(sx("select", h1, l), sx("select", h0, l)))
-		c.oblige(fmt.Sprintf("%s#frame:%s", x.target, mangle(k)), "frame", x.target, "modifies clause (component "+k+")", fr.pos(fr.fn.Pos()), fin.Reach, g,
-			append([]ModelReq{{Label: "loc", Term: l}}, x.topReqs...))
-	}
+	x.frameCheck(fr, ct.Modifies, fr.scope(entry, entry), entry, fin, "alloc_0", x.target+"#frame", "modifies clause")
 }
 
 // ---- lemma checking -------------------------------------------------------------------------------
